@@ -233,7 +233,12 @@ func (sim *Sim) DriveAll(onSync func()) DriveStatus {
 func (sim *Sim) Cleanup(f func()) { sim.cleanup = append(sim.cleanup, f) }
 
 // Stamp returns the next value of the run-global event sequence number.
-func (sim *Sim) Stamp() int64 { return sim.stamp.Add(1) }
+func (sim *Sim) Stamp() int64 {
+	verifsim.RaceDisable() // the counter must not order program goroutines for the race detector
+	v := sim.stamp.Add(1)
+	verifsim.RaceEnable()
+	return v
+}
 
 // Now returns elapsed simulated time.
 func (sim *Sim) Now() time.Duration { return time.Since(sim.start) }
@@ -254,6 +259,7 @@ func (sim *Sim) Go(name string, f func()) {
 		verifsim.NameMe(name)
 		verifsim.Yield(name)
 		f()
+		verifsim.HarnessSync()
 	}()
 }
 
